@@ -662,3 +662,13 @@ func contractParamNames(sig string) []string {
 	}
 	return names
 }
+
+// contractHasTag: some ensures clause of the contract (not a mere verify directive) carries the tag
+func contractHasTag(c *Contract, tag string) bool {
+	for _, cl := range c.Clauses {
+		if cl.Kind == "ensures" && hasTag(cl.Tags, tag) {
+			return true
+		}
+	}
+	return false
+}
